@@ -106,168 +106,189 @@ func runWalletSuite(seed uint64, n int, out *Out, stats *Stats) {
 		w, owner := walletWorld(r, set, values, r.Chance(1, 3))
 		v := w.host
 		sender := backedSender(v)
-		// the clock reading: anywhere inside the current slot
-		now := w.now + int64(r.U64n(uint64(set.Interval)))
-		watch := &ScriptWatch{fallback: func() int64 { return now }}
-		ctl := apayment.NewInfoController(sender, set, watch, &CapLogger{})
-		// what the wallet holds, valued at the next block time (the controller's own valuation time)
-		utxos := v.Ureg.Utxos(owner.Addr)
-		first := v.Chain.FirstBlockTimestamp()
-		nextTs := first + ((now-first)/set.Interval+1)*set.Interval
-		var hold []string
-		balance := new(big.Int)
-		var maxv uint64
-		for _, u := range utxos {
-			val := u.Value(nextTs, set.HalfLife, set.Base, set.ILimit)
-			hold = append(hold, sx(atom(u.TransactionId()), u64(uint64(u.OutputIndex())), u64(val)))
-			balance.Add(balance, new(big.Int).SetUint64(val))
-			if val > maxv {
-				maxv = val
-			}
+		// one to three payments in a row on the same validator: the later ones see what the earlier
+		// ones left (outputs of one transaction spent one by one, a wallet paying itself)
+		rounds := 1
+		if i%3 == 0 {
+			rounds = 3
 		}
-		bal := balance.Uint64()
-		var amount uint64
-		akind := ""
-		switch r.Intn(9) {
-		case 8:
-			// an exact multiple of a repeated value
-			exact := basev
-			if len(utxos) > 0 {
-				exact = utxos[r.Intn(len(utxos))].Value(nextTs, set.HalfLife, set.Base, set.ILimit)
+		for round := 0; round < rounds; round++ {
+			rid := id
+			if round > 0 {
+				rid = fmt.Sprintf("%sr%d", id, round)
+				// the previous payment gets confirmed
+				w.now = v.Chain.LastBlockTimestamp() + set.Interval
+				v.Pool.Validate(w.now)
+				v.Log.Take()
 			}
-			amount, akind = 2*exact-minU(2*exact, set.Fee), "two-exact"
-		case 0:
-			amount, akind = 0, "zero"
-		case 1:
-			if bal > set.Fee {
-				amount = bal - set.Fee
-			}
-			akind = "all"
-		case 2:
-			amount, akind = bal-minU(bal, set.Fee)+1, "just-above"
-		case 3:
-			// amount + fee exactly equal to one holding's value at the next block time
-			exact := basev
-			if len(utxos) > 0 {
-				exact = utxos[r.Intn(len(utxos))].Value(nextTs, set.HalfLife, set.Base, set.ILimit)
-			}
-			amount, akind = exact-minU(exact, set.Fee), "one-exact"
-		case 4:
-			amount, akind = bal+uint64(r.Intn(1000)), "beyond"
-		default:
-			amount, akind = r.U64n(bal+1), "random"
-		}
-		consolidate := r.Chance(1, 3)
-		url := fmt.Sprintf("/transaction/info?address=%s&value=%d&consolidation=%v", owner.Addr, amount, consolidate)
-		rec := httptest.NewRecorder()
-		ctl.GetTransactionInfo(rec, httptest.NewRequest("GET", url, nil))
-		got := fmt.Sprintf("(status %d)", rec.Code)
-		var ans infoAnswer
-		if rec.Code == http.StatusOK {
-			if err := json.Unmarshal(rec.Body.Bytes(), &ans); err != nil {
-				got = "(status 200 undecodable)"
-			} else {
-				var ins []string
-				for _, in := range ans.Inputs {
-					ins = append(ins, sx(atom(in.TransactionId), u64(uint64(in.OutputIndex))))
-				}
-				got = sx("ok", u64(ans.Rest), plist(ins))
-			}
-		} else if rec.Code == http.StatusMethodNotAllowed {
-			got = "405"
-		}
-		out.Case(sx("walletcase", id, u64(set.Fee), b01(consolidate), u64(amount), plist(hold), got))
-		stats.Count(fmt.Sprintf("info/%s/consolidate=%v/holdings=%s/status=%d", akind, consolidate, sizeClass(len(utxos)), rec.Code))
-		stats.Mark(fmt.Sprintf("%s/%v/%d/%d", akind, consolidate, len(utxos), rec.Code))
-		stats.Sample(fmt.Sprintf("%s: %d holdings, balance %d, amount %d (%s), consolidation %v -> %s", id, len(utxos), bal, amount, akind, consolidate, got))
-		stats.Cases++
-		stats.Ops++
-		// ---- monitors: the property on the implementation's answer ----
-		target := new(big.Int).Add(new(big.Int).SetUint64(amount), new(big.Int).SetUint64(set.Fee))
-		afford := balance.Cmp(target) >= 0
-		viol := func(key, what string) {
-			out.Violation("C18", id, fmt.Sprintf("%s\t%d holdings, balance %s, amount %d, fee %d, consolidation %v: %s (answer %s)", key, len(utxos), balance, amount, set.Fee, consolidate, what, got))
-		}
-		if !afford {
-			if rec.Code != http.StatusMethodNotAllowed {
-				viol("unaffordable-not-405", "the wallet cannot afford the amount but the answer is not 405")
-			}
-			continue
-		}
-		if rec.Code != http.StatusOK {
-			viol("affordable-refused", "the wallet can afford the amount but the answer is not 200")
-			continue
-		}
-		seen := map[string]bool{}
-		sum := new(big.Int)
-		nonzero := 0
-		for _, u := range utxos {
-			if u.Value(nextTs, set.HalfLife, set.Base, set.ILimit) > 0 {
-				nonzero++
-			}
-		}
-		for _, in := range ans.Inputs {
-			k := fmt.Sprintf("%s/%d", in.TransactionId, in.OutputIndex)
-			if seen[k] {
-				viol("duplicate-input", "an output is listed twice")
-			}
-			seen[k] = true
-			found := false
+			selfPay := r.Chance(1, 3)
+			// the clock reading: anywhere inside the current slot
+			now := w.now + int64(r.U64n(uint64(set.Interval)))
+			watch := &ScriptWatch{fallback: func() int64 { return now }}
+			ctl := apayment.NewInfoController(sender, set, watch, &CapLogger{})
+			// what the wallet holds, valued at the next block time (the controller's own valuation time)
+			utxos := v.Ureg.Utxos(owner.Addr)
+			first := v.Chain.FirstBlockTimestamp()
+			nextTs := first + ((now-first)/set.Interval+1)*set.Interval
+			var hold []string
+			balance := new(big.Int)
+			var maxv uint64
 			for _, u := range utxos {
-				if u.TransactionId() == in.TransactionId && u.OutputIndex() == in.OutputIndex {
-					found = true
-					val := u.Value(nextTs, set.HalfLife, set.Base, set.ILimit)
-					if val == 0 {
-						viol("zero-input", "a zero-valued output is listed")
+				val := u.Value(nextTs, set.HalfLife, set.Base, set.ILimit)
+				hold = append(hold, sx(atom(u.TransactionId()), u64(uint64(u.OutputIndex())), u64(val)))
+				balance.Add(balance, new(big.Int).SetUint64(val))
+				if val > maxv {
+					maxv = val
+				}
+			}
+			bal := balance.Uint64()
+			var amount uint64
+			akind := ""
+			switch r.Intn(9) {
+			case 8:
+				// an exact multiple of a repeated value
+				exact := basev
+				if len(utxos) > 0 {
+					exact = utxos[r.Intn(len(utxos))].Value(nextTs, set.HalfLife, set.Base, set.ILimit)
+				}
+				amount, akind = 2*exact-minU(2*exact, set.Fee), "two-exact"
+			case 0:
+				amount, akind = 0, "zero"
+			case 1:
+				if bal > set.Fee {
+					amount = bal - set.Fee
+				}
+				akind = "all"
+			case 2:
+				amount, akind = bal-minU(bal, set.Fee)+1, "just-above"
+			case 3:
+				// amount + fee exactly equal to one holding's value at the next block time
+				exact := basev
+				if len(utxos) > 0 {
+					exact = utxos[r.Intn(len(utxos))].Value(nextTs, set.HalfLife, set.Base, set.ILimit)
+				}
+				amount, akind = exact-minU(exact, set.Fee), "one-exact"
+			case 4:
+				amount, akind = bal+uint64(r.Intn(1000)), "beyond"
+			default:
+				amount, akind = r.U64n(bal+1), "random"
+			}
+			consolidate := r.Chance(1, 3)
+			url := fmt.Sprintf("/transaction/info?address=%s&value=%d&consolidation=%v", owner.Addr, amount, consolidate)
+			rec := httptest.NewRecorder()
+			ctl.GetTransactionInfo(rec, httptest.NewRequest("GET", url, nil))
+			got := fmt.Sprintf("(status %d)", rec.Code)
+			var ans infoAnswer
+			if rec.Code == http.StatusOK {
+				if err := json.Unmarshal(rec.Body.Bytes(), &ans); err != nil {
+					got = "(status 200 undecodable)"
+				} else {
+					var ins []string
+					for _, in := range ans.Inputs {
+						ins = append(ins, sx(atom(in.TransactionId), u64(uint64(in.OutputIndex))))
 					}
-					sum.Add(sum, new(big.Int).SetUint64(val))
+					got = sx("ok", u64(ans.Rest), plist(ins))
+				}
+			} else if rec.Code == http.StatusMethodNotAllowed {
+				got = "405"
+			}
+			out.Case(sx("walletcase", rid, u64(set.Fee), b01(consolidate), u64(amount), plist(hold), got))
+			stats.Count(fmt.Sprintf("info/%s/consolidate=%v/holdings=%s/status=%d", akind, consolidate, sizeClass(len(utxos)), rec.Code))
+			stats.Mark(fmt.Sprintf("%s/%v/%d/%d", akind, consolidate, len(utxos), rec.Code))
+			stats.Sample(fmt.Sprintf("%s: %d holdings, balance %d, amount %d (%s), consolidation %v -> %s", id, len(utxos), bal, amount, akind, consolidate, got))
+			stats.Cases++
+			stats.Ops++
+			// ---- monitors: the property on the implementation's answer ----
+			target := new(big.Int).Add(new(big.Int).SetUint64(amount), new(big.Int).SetUint64(set.Fee))
+			afford := balance.Cmp(target) >= 0
+			viol := func(key, what string) {
+				out.Violation("C18", rid, fmt.Sprintf("%s\t%d holdings, balance %s, amount %d, fee %d, consolidation %v: %s (answer %s)", key, len(utxos), balance, amount, set.Fee, consolidate, what, got))
+			}
+			if !afford {
+				if rec.Code != http.StatusMethodNotAllowed {
+					viol("unaffordable-not-405", "the wallet cannot afford the amount but the answer is not 405")
+				}
+				continue
+			}
+			if rec.Code != http.StatusOK {
+				viol("affordable-refused", "the wallet can afford the amount but the answer is not 200")
+				continue
+			}
+			seen := map[string]bool{}
+			sum := new(big.Int)
+			nonzero := 0
+			for _, u := range utxos {
+				if u.Value(nextTs, set.HalfLife, set.Base, set.ILimit) > 0 {
+					nonzero++
 				}
 			}
-			if !found {
-				viol("foreign-input", "an output that the wallet does not hold is listed")
-			}
-		}
-		want := new(big.Int).Add(target, new(big.Int).SetUint64(ans.Rest))
-		if sum.Cmp(want) != 0 {
-			viol("inexact", fmt.Sprintf("inputs total %s but amount + fee + rest = %s", sum, want))
-		}
-		if consolidate && len(ans.Inputs) != nonzero {
-			viol("consolidation", fmt.Sprintf("%d inputs listed, the wallet has %d non-zero outputs", len(ans.Inputs), nonzero))
-		}
-		if !consolidate && target.Sign() > 0 && new(big.Int).SetUint64(maxv).Cmp(target) >= 0 && len(ans.Inputs) != 1 {
-			viol("not-single", fmt.Sprintf("one output alone (%d) suffices but %d are listed", maxv, len(ans.Inputs)))
-		}
-		// a transaction built from the answer (amount to the recipient, rest to the sender) is
-		// admitted by the validator's pool and included in its next block
-		if len(ans.Inputs) > 0 {
-			jt := &JTx{Timestamp: ans.Timestamp}
-			jt.Inputs = []*JInput{}
 			for _, in := range ans.Inputs {
-				jt.Inputs = append(jt.Inputs, owner.SignInput(in.OutputIndex, in.TransactionId))
-			}
-			jt.Outputs = []*JOutput{{w.wallets[2].Addr, false, amount}, {owner.Addr, false, ans.Rest}}
-			jt.Id = jt.ComputeId()
-			tx, err := jt.Real()
-			if err != nil {
-				viol("undecodable-tx", err.Error())
-				continue
-			}
-			before := len(v.Pool.Transactions())
-			v.Pool.AddTransaction(tx, "a", "b")
-			lines := v.Log.Take()
-			if len(v.Pool.Transactions()) != before+1 {
-				viol("not-admitted", "the transaction built from the answer is refused by the pool: "+strings.Join(lines, " | "))
-				continue
-			}
-			v.Pool.Validate(w.now + set.Interval)
-			included := false
-			for _, t := range v.Chain.LastBlockTransactions() {
-				if t.Id() == tx.Id() {
-					included = true
+				k := fmt.Sprintf("%s/%d", in.TransactionId, in.OutputIndex)
+				if seen[k] {
+					viol("duplicate-input", "an output is listed twice")
+				}
+				seen[k] = true
+				found := false
+				for _, u := range utxos {
+					if u.TransactionId() == in.TransactionId && u.OutputIndex() == in.OutputIndex {
+						found = true
+						val := u.Value(nextTs, set.HalfLife, set.Base, set.ILimit)
+						if val == 0 {
+							viol("zero-input", "a zero-valued output is listed")
+						}
+						sum.Add(sum, new(big.Int).SetUint64(val))
+					}
+				}
+				if !found {
+					viol("foreign-input", "an output that the wallet does not hold is listed")
 				}
 			}
-			if !included {
-				viol("not-included", "the transaction built from the answer is not in the next block: "+strings.Join(v.Log.Take(), " | "))
+			want := new(big.Int).Add(target, new(big.Int).SetUint64(ans.Rest))
+			if sum.Cmp(want) != 0 {
+				viol("inexact", fmt.Sprintf("inputs total %s but amount + fee + rest = %s", sum, want))
+			}
+			if consolidate && len(ans.Inputs) != nonzero {
+				viol("consolidation", fmt.Sprintf("%d inputs listed, the wallet has %d non-zero outputs", len(ans.Inputs), nonzero))
+			}
+			if !consolidate && target.Sign() > 0 && new(big.Int).SetUint64(maxv).Cmp(target) >= 0 && len(ans.Inputs) != 1 {
+				viol("not-single", fmt.Sprintf("one output alone (%d) suffices but %d are listed", maxv, len(ans.Inputs)))
+			}
+			// a transaction built from the answer (amount to the recipient, rest to the sender) is
+			// admitted by the validator's pool and included in its next block
+			if len(ans.Inputs) > 0 {
+				jt := &JTx{Timestamp: ans.Timestamp}
+				jt.Inputs = []*JInput{}
+				for _, in := range ans.Inputs {
+					jt.Inputs = append(jt.Inputs, owner.SignInput(in.OutputIndex, in.TransactionId))
+				}
+				recipient := w.wallets[2].Addr
+				if selfPay {
+					recipient = owner.Addr // the wallet pays itself: two outputs of one transaction to one address
+				}
+				jt.Outputs = []*JOutput{{recipient, false, amount}, {owner.Addr, false, ans.Rest}}
+				jt.Id = jt.ComputeId()
+				tx, err := jt.Real()
+				if err != nil {
+					viol("undecodable-tx", err.Error())
+					continue
+				}
+				before := len(v.Pool.Transactions())
+				v.Pool.AddTransaction(tx, "a", "b")
+				lines := v.Log.Take()
+				if len(v.Pool.Transactions()) != before+1 {
+					viol("not-admitted", "the transaction built from the answer is refused by the pool: "+strings.Join(lines, " | "))
+					continue
+				}
+				v.Pool.Validate(w.now + set.Interval)
+				included := false
+				for _, t := range v.Chain.LastBlockTransactions() {
+					if t.Id() == tx.Id() {
+						included = true
+					}
+				}
+				if !included {
+					viol("not-included", "the transaction built from the answer is not in the next block: "+strings.Join(v.Log.Take(), " | "))
+				}
 			}
 		}
 	}
@@ -306,9 +327,18 @@ func runViewsSuite(seed uint64, n int, out *Out, stats *Stats) {
 		for k := 0; k < 1+r.Intn(6); k++ {
 			values = append(values, uint64(1+r.Intn(5_000_000)))
 		}
-		w, owner := walletWorld(r, set, values, r.Chance(1, 3))
+		yieldingFirst := r.Chance(1, 3)
+		if r.Chance(1, 4) {
+			// an income-only holding: a yielding output created with value 0 (worth more with time)
+			values[0] = 0
+			yieldingFirst = true
+		}
+		w, owner := walletWorld(r, set, values, yieldingFirst)
 		v := w.host
 		now := w.now + int64(r.U64n(uint64(set.Interval)))
+		if r.Chance(1, 2) {
+			now += int64(r.Pick(1, 10, 1000, 100000)) * set.Interval // the balance is asked for much later
+		}
 		watch := &ScriptWatch{fallback: func() int64 { return now }}
 		// -- balance --
 		{
